@@ -12,6 +12,7 @@ import (
 type Case struct {
 	Cols     []script.Col   `json:"cols"`
 	Rows     [][]script.Val `json:"rows"`
+	End      string         `json:"end,omitempty"` // "" (Complete) | error | panic (Execute only): how the statement ends after its rows
 	Extended bool           `json:"extended,omitempty"`
 	RFmts    []int16        `json:"rfmts,omitempty"`
 	Other    bool           `json:"other,omitempty"` // a second portal with complementary formats is bound in between
@@ -85,7 +86,21 @@ func Run(c Case) core.Result {
 	for _, r := range c.Rows {
 		st.Ops = append(st.Ops, script.Op{K: "row", Vals: r})
 	}
-	st.Ops = append(st.Ops, script.Op{K: "complete", Tag: "SELECT"})
+	switch c.End {
+	case "error":
+		// the rows were written (Row returned nil); that the statement fails afterwards does not take them back
+		st.Ops = append(st.Ops, script.Op{K: "ret", Err: &script.ErrSpec{Base: "statement fails after its rows"}})
+		res.Labels = append(res.Labels, "error-after-rows")
+	case "panic":
+		if c.Extended {
+			st.Ops = append(st.Ops, script.Op{K: "panic"})
+			res.Labels = append(res.Labels, "panic-after-rows")
+			break
+		}
+		fallthrough
+	default:
+		st.Ops = append(st.Ops, script.Op{K: "complete", Tag: "SELECT"})
+	}
 	h := play.History{}
 	h.Cfg.Table.Q = map[string]script.Outcome{q: {Stmts: []script.Stmt{st}}}
 	h.Cfg.SetLimit, h.Cfg.Limit = true, 1<<16
